@@ -153,7 +153,8 @@ def run():
     recs, meta = [], []
     klass_opts = [('', None), ('BlockToken', block_token.BlockToken), ('SpanToken', span_token.SpanToken),
                   ('RawText', span_token.RawText), ('Paragraph', block_token.Paragraph), ('ListItem', block_token.ListItem)]
-    for i, t in enumerate(inputs.texts(ck.rng, n)):
+    from . import docgen
+    for i, t in enumerate(inputs.texts(ck.rng, n) + docgen.texts(ck, 300 if ck.tier == 'quick' else 10000)):
         if len(t) > 600:
             continue
         for R in token_sets(m):
